@@ -1,13 +1,87 @@
 import Thanos.Common.Parse
+import Thanos.Model.Bucket
 /-
   Line-protocol driver of the `block` family (C28 C31 C32 C33 C35).
   One request per line, one answer per line; every line is self-contained.
+
+  C28   blk.run <chunks> <index> <steps>
+          chunks = <name>:<size>,… | -      index = <size>
+          steps  = <proc>:<k>;…             proc ∈ up ship rep del mark nocomp ; k = crash budget | x
+        answer: <status>[<mutating calls>] … => <listing>       (grammar in harness/cmd/block/c28.go)
 -/
 open Thanos Thanos.Parse
 
 namespace Thanos.Driver.Block
+open Thanos.Bucket
+
+-- ---------------------------------------------------------------- C28
+
+def isJsonName (f : String) : Bool := f.endsWith ".json"
+
+def showName (f : String) : String := if f = "" then "." else f
+
+def showOp : Op → String
+  | .put (_, f) (.data sz) => if isJsonName f then s!"put {showName f}" else s!"put {showName f} {sz}"
+  | .put (_, f) (.metaJson _ _) => s!"put {showName f}"
+  | .del (_, f) => s!"del {showName f}"
+
+def showListing (s : Bucket) (n : Nat) : String :=
+  let names := sortNames (namesOf s n)
+  joinWith " " (names.map fun f =>
+    match get s (n, f) with
+    | some (.data sz) => if isJsonName f then f else s!"{f}:{sz}"
+    | _ => f)
+
+def parseChunks (s : String) : Option (List (String × Nat)) :=
+  (listOf ',' s).mapM fun t =>
+    match splitChar ':' t with
+    | [name, sz] => do
+      let sz ← parseNat? sz
+      pure ("chunks/" ++ name, sz)
+    | _ => none
+
+def parseBudget (s : String) : Option (Option Nat) :=
+  if s = "x" then some none else (parseNat? s).map some
+
+def parseSteps (s : String) : Option (List (String × Option Nat)) :=
+  (listOf ';' s).mapM fun t =>
+    match splitChar ':' t with
+    | [p, k] => do
+      let k ← parseBudget k
+      pure (p, k)
+    | _ => none
+
+/-- the script of one procedure run on block 0, from the bucket state at its start -/
+def scriptOf (proc : String) (s : Bucket) (b : Block) : Option (List Call) :=
+  match proc with
+  | "up" => some (uploadScript codeUploadOrder 0 b)
+  | "ship" => some (shipScript codeUploadOrder s 0 b)
+  | "rep" => some (replicateScript codeReplicateOrder s 0 b)
+  | "del" => some (deleteScript codeDeleteOrder s 0)
+  | "mark" => some (markScript s 0 markName 0)
+  | "nocomp" => some (markScript s 0 noCompactName 0)
+  | _ => none
+
+def runSteps (b : Block) : Bucket → List (String × Option Nat) → Option (List String × Bucket)
+  | s, [] => some ([], s)
+  | s, (p, k) :: rest => do
+    let sc ← scriptOf p s b
+    let r := exec k sc s
+    let (outs, s') ← runSteps b r.bkt rest
+    let st := if r.ok then "ok" else "err"
+    pure (s!"{st}[{",".intercalate (r.trace.map showOp)}]" :: outs, s')
+
+def blkRun (chunks index steps : String) : String :=
+  match parseChunks chunks, parseNat? index, parseSteps steps with
+  | some cs, some ix, some sts =>
+    if sts.isEmpty then "bad-op" else
+    match runSteps ⟨cs, ix⟩ [] sts with
+    | some (outs, s) => " ".intercalate outs ++ " => " ++ showListing s 0
+    | none => "bad-op"
+  | _, _, _ => "bad-op"
 
 def handle : List String → String
+  | ["blk.run", chunks, index, steps] => blkRun chunks index steps
   | _ => "bad-op"
 
 end Thanos.Driver.Block
